@@ -91,13 +91,13 @@ def _tasks(n):
         E.prove(f"C01.Switch.generate.in_range.wf[n{n}]", E.Implies(inr, wf(E, sw, tr)))
         E.refutable(f"switch.assess_generate_project.n{n}", E.eq(w, SReal(T.gen_w(gs[0].t, k.t, c.t, bargs[0].t))))
 
-    @task(f"switch.edit.n{n}", props=["C01", "C05", "C06", "C08", "C13"], functions=FUNCS)
+    @task(f"switch.edit.n{n}", props=["C01", "C05", "C06", "C08", "C13", "C23"], functions=FUNCS)
     def t_edit(E):
         z3, T = E.z3, E.I.T
         sw, gs, idx0, bargs0 = setup(E, n)
         k, c = key(E), chm(E)
         old, subs = _an_old_trace(E, sw, gs, idx0, bargs0, n)
-        new_idx = E.int("new_idx", conc=False)
+        new_idx = E.int("new_idx")          # concrete Python int (eager call) or traced (jit): both explored (C23)
         idx_nochange = sym_tangent(E, "idx_nochange")
         if idx_nochange.cls.name == "_NoChange":
             E.assume(E.eq(new_idx, idx0))                   # honest tagging
@@ -131,6 +131,16 @@ def _tasks(n):
             else:
                 # index changed: the new branch is resampled.  "No new random choice is introduced" holds exactly when
                 # the constraint covers every choice of the new branch; then the weight must be the score change.
+                # documented behaviour of an index tagged UnknownChange (also when the value happens to be the same, also for
+                # concrete Python-int indices - what an eager call sees must be what jit sees, C23): the branch's old sub-trace is
+                # NOT consulted; a fresh trace of the branch is simulated at the new arguments and updated with the request
+                pj = UVal(T.d_primal(ads[j].t), "tuple")
+                fresh_j = T.sim(gs[j].t, k.t, pj.t)
+                rqj = E.I.to_u(req)
+                adj = E.I.to_u(E.call(INC + ":Diff.no_change", ads[j]))
+                fj = UVal(T.edit_tr(gs[j].t, k.t, fresh_j, rqj, adj), "Trace")
+                E.prove(f"C13.Switch.edit.changed_index.new_branch_is_simulated_afresh_then_updated[{j}of{n}]",
+                        E.Implies(here, E.eq(new.fields["subtraces"][j], fj)), also=["C23"])
                 covers = T.covers_all(gs[j].t, c.t, T.d_primal(ads[j].t))
                 E.prove(f"C05.Switch.edit.changed_index.weight_is_score_change_when_fully_constrained[{j}of{n}]",
                         E.Implies(z3.And(here, covers), E.eq(w, score_change)))
